@@ -41,7 +41,9 @@ func c21(r *core.Run) {
 	r.Floor("R1.noarith", 5)
 
 	// R2 construction guards
-	named := func(nm string) func(*types.Func) bool { return func(o *types.Func) bool { return o != nil && o.Name() == nm } }
+	named := func(nm string) func(*types.Func) bool {
+		return func(o *types.Func) bool { return o != nil && o.Name() == nm }
+	}
 	if fn := mustFn(r, "R2.construct", "interpreter", "", "NewInclusiveRangeValueWithStep"); fn != nil {
 		for _, c := range callsIn(r, "R2.construct", fn, "createInclusiveRange", named("createInclusiveRange")) {
 			zero := false
